@@ -8,6 +8,7 @@ descriptors become readable).  All times in traces are integer microseconds.
 from __future__ import annotations
 
 import math
+import os
 import selectors
 
 US = 1_000_000
@@ -258,6 +259,18 @@ class TwistedAdapter(Adapter):
         from urwid.event_loop.twisted_loop import TwistedEventLoop
 
         self.env.grace = 3907  # TwistedEventLoop._idle_emulation_delay = 1/256 s, documented idle emulation
+        # a reactor owns wake-up pipes (its waker, the signal waker installed by run()) that nothing closes when the reactor object
+        # is dropped: thousands of scenarios in one process ran into the descriptor limit.  Close what this adapter's reactor opened.
+        before = set(os.listdir("/proc/self/fd"))
+
+        def close_new_fds():
+            for name in set(os.listdir("/proc/self/fd")) - before:
+                try:
+                    os.close(int(name))
+                except OSError:
+                    pass
+
+        self.cleanup.append(close_new_fds)
         self.aloop = _virtual_asyncio_loop(self.env)
         self.reactor = AsyncioSelectorReactor(self.aloop)
         self.reactor.seconds = lambda: self.env.now
@@ -329,6 +342,7 @@ class ZmqAdapter(Adapter):
             self._pipes[f] = (r, w)
             self.fdmap[r] = f
             self.cleanup.append(lambda w=w: self._os.close(w))
+            self.cleanup.append(lambda r=r: self._os.close(r))     # the loop no longer takes the descriptor over (repo fix 9e88ac0)
         return self._pipes[f][0]
 
 
